@@ -334,7 +334,7 @@ extern "C" void cbmc_main() {
 #elif UNREG_POS == 2
         mvp[NM - 1][M_AR[NM - 1] - 1] = bad;  // a method parameter
 #else
-        dvp[0][0][0] = bad;  // a definition parameter
+        dvp[0][0][M_AR[0] - 1] = bad;  // a definition parameter (the last virtual one: the first one is registered when arity > 1)
 #endif
     }
 #endif
